@@ -79,6 +79,8 @@ func runC09Imm(c *Ctx) {
 			case *ssa.MapUpdate:
 				ld, ok := x.Map.(*ssa.UnOp)
 				if !ok {
+					// the map arrives as a parameter, a phi or a result: the type objects it is a field of
+					c09ImmIndirect(c, fn, x, x.Map, "map write", occ)
 					return
 				}
 				fa, ok := ld.X.(*ssa.FieldAddr)
@@ -90,6 +92,7 @@ func runC09Imm(c *Ctx) {
 				if b, ok := x.Call.Value.(*ssa.Builtin); ok && b.Name() == "delete" {
 					ld, ok := x.Call.Args[0].(*ssa.UnOp)
 					if !ok {
+						c09ImmIndirect(c, fn, x, x.Call.Args[0], "delete", occ)
 						return
 					}
 					fa, ok := ld.X.(*ssa.FieldAddr)
@@ -467,7 +470,7 @@ func runC09Ast(c *Ctx) {
 		c.anchorMissing("struct types of ast.go")
 		return
 	}
-	n := 0
+	n, nbad := 0, 0
 	for _, fn := range p.Funcs {
 		if isParserFunc(fn) {
 			continue
@@ -505,8 +508,14 @@ func runC09Ast(c *Ctx) {
 				return // a node (or value) created here, e.g. a synthetic String for a matrix label or a Pos inside a new struct
 			}
 			// methods of the AST types themselves may not mutate either, but value receivers copy: check pointer identity only
+			nbad++
 			c.bad(FuncName(fn)+"|"+kind+" "+fieldAddrName(fa), in.Pos(), "a rule writes into the workflow AST: later rules, jobs and steps read the modified node")
 		})
+	}
+	n2, nbad2 := c09AstContainers(c, astTypes)
+	n += n2
+	if nbad+nbad2 > 0 {
+		return
 	}
 	c.ok("package|AST writes outside the parser", 0, fmt.Sprintf("%d AST struct types; %d writes outside the parser, all into nodes created on the spot", len(astTypes), n))
 }
